@@ -234,6 +234,8 @@ type ApplyStageRunner struct {
 	done    chan struct{}
 	running bool
 	mu      sync.Mutex
+	// onItemDone is called for every item that has left the apply stage
+	onItemDone func()
 }
 
 // NewApplyStageRunner creates a new runner for the apply stage.
@@ -267,6 +269,13 @@ func NewApplyStageRunner(
 // Must be called before Start() to avoid data races.
 func (r *ApplyStageRunner) SetMetrics(metrics *PipelineMetrics) {
 	r.metrics = metrics
+}
+
+// SetOnItemDone sets a function that is called once for every item that has
+// left the apply stage (applied, skipped or failed), before it is forwarded.
+// It must be called before Start.
+func (r *ApplyStageRunner) SetOnItemDone(fn func()) {
+	r.onItemDone = fn
 }
 
 // Start starts the apply stage runner.
@@ -339,6 +348,9 @@ func (r *ApplyStageRunner) run(ctx context.Context) {
 
 // forwardItem sends an item to output and reports any apply errors.
 func (r *ApplyStageRunner) forwardItem(ctx context.Context, item *BlockItem) {
+	if r.onItemDone != nil {
+		r.onItemDone()
+	}
 	// Record metrics for items that went through the apply stage (both success and failure).
 	// Items with decode/validation errors are not applied and don't have apply metrics.
 	if r.metrics != nil && item.DecodeError() == nil && item.ValidationError() == nil {
